@@ -39,6 +39,7 @@ DEF = dict(Mode='"pat"', Emit='FALSE', MaxPat=2, MaxSubj=2, MaxItems=1,
            MaxTok=2, MaxEntries=1, MaxOpts=1, OptSel=[1], SampleMod=1,
            SampleRem=0, NegIgnored='FALSE', NoHostLiteralCidr='FALSE', FallbackAlways='FALSE',
            AnyFromSuffices='FALSE', DropPortRevoked='FALSE',
+           IndexAliased='FALSE', MaxHist=2,
            CaseFold='FALSE')
 
 # many small single-worker JVMs run side by side: keep each one narrow
@@ -55,6 +56,8 @@ INVS = {
            'RevocationKept', 'MarkerPartition', 'OrderFree'],
     'tok': ['TokPlain', 'TokQuotes'],
     'ak': ['NegationExcludes', 'AllMustMatch', 'FirstEntryWins'],
+    'hist': ['HistoryFree'],
+    'akhist': [],
 }
 
 
@@ -124,6 +127,15 @@ def plan(ctx):
         ('kh3', 'kh', dict(MaxLines=3, HFSel=[1, 4, 6, 8], MarkSel=[1, 3],
                            KeySel=[1, 3], **smp(12 if q else 1))),
         ('tok', 'tok', dict(MaxTok=5 if q else 6)),
+        # HISTORIES: 2-3 lookups one after the other on ONE loaded object
+        # (consecutive lookups differ in address / port / host form); each
+        # must give what a freshly loaded object gives
+        ('hist', 'hist', dict(MaxLines=2, MaxHist=3, MarkSel=[1, 3], KeySel=[1],
+                              HFSel=[1, 2, 4, 10, 11, 12, 14, 20, 26],
+                              QSel=[1, 3, 5, 7, 9, 13, 14], **smp(10 if q else 1))),
+        ('akhist', 'akhist', dict(MaxEntries=2, MaxOpts=1, MaxHist=3,
+                                  OptSel=[1, 2, 3, 4, 5, 7, 17],
+                                  **smp(150 if q else 6))),
         ('ak1', 'ak', dict(MaxEntries=1, MaxOpts=2, OptSel=ALL_OPT,
                            **smp(12 if q else 1))),
         ('ak2', 'ak', dict(MaxEntries=2, MaxOpts=1, OptSel=ALL_OPT,
@@ -157,6 +169,9 @@ SENSITIVITY = [
      'FallbackRule'),
     ('droprev', 'kh', dict(MaxLines=2, HFSel=[1, 8], MarkSel=[1, 3],
                            DropPortRevoked='TRUE'), 'RevocationKept'),
+    ('aliased', 'hist', dict(MaxLines=2, MaxHist=2, HFSel=[1, 11, 26],
+                             QSel=[1, 3, 5], IndexAliased='TRUE'),
+     'HistoryFree'),
     ('anyfrom', 'ak', dict(MaxEntries=1, MaxOpts=2, OptSel=[1, 2, 3, 4, 17, 18],
                            AnyFromSuffices='TRUE'), 'AllMustMatch'),
     ('wit_fallback', 'kh', dict(MaxLines=1, HFSel=[1, 8]), 'NeverFallsBack'),
@@ -357,6 +372,94 @@ class Replayer:
                 replay={'kind': 'ak', 'text': text, 'query': qd,
                         'expected': expected})
 
+    # ---- histories: several lookups on ONE loaded object ----
+    def hist(self, rec):
+        _, file, qs, preds = rec
+        import asyncssh
+        tf, menu = self.tf, self.menu
+        self.n += 1
+        text = tf.kh_text(menu, file, None, salt_variant=self.n % 5)
+        desc = [[menu.hostfield(h) if menu.hf[h - 1][0] == 'l'
+                 else '|1|HMAC(' + tf.S(menu.hf[h - 1][1]) + ')',
+                 menu.markers[m - 1], menu.keys[k - 1]] for h, m, k in file]
+        queries = [menu.query(qi) for qi in qs]
+        self.ctx.count(('hist', str(file), str(qs)), nontrivial=True)
+        try:
+            obj = asyncssh.import_known_hosts(text)
+            got = []
+            for i, (host, addr, port) in enumerate(queries):
+                r = obj.match(host, addr, port) if (self.n + i) % 2 else \
+                    asyncssh.match_known_hosts(obj, host, addr, port)
+                got.append([[tf.key_id(k) for k in lst] for lst in r[:3]])
+            fresh = [[[tf.key_id(k) for k in lst] for lst in
+                      asyncssh.import_known_hosts(text).match(*q)[:3]]
+                     for q in queries]
+        except Exception as exc:        # pylint: disable=broad-except
+            got = fresh = f'{type(exc).__name__}: {exc}'
+        if self.n % 1500 == 1:
+            self.ctx.sample({'known_hosts': desc, 'lookups on one object':
+                             queries, 'predicted': preds, 'observed': got})
+        want = [[list(x) for x in p] for p in preds]
+        if got != want or fresh != want:
+            def sets(rs):
+                return [[sorted(set(x)) for x in r] for r in rs] \
+                    if isinstance(rs, list) else rs
+            if sets(got) == sets(want) and sets(fresh) == sets(want):
+                self.ctx.divergence(f'hist: same key sets, other multiplicity:'
+                                    f' {desc} {queries}: {got} vs {want}')
+                return
+            which = 'the used object' if fresh == want else 'a fresh object'
+            self.ctx.violation(
+                {'module': 'TrustFiles', 'api': 'known_hosts', 'file': desc,
+                 'history': [list(q) for q in queries]},
+                f'known_hosts {desc}, lookups {queries} one after the other '
+                f'on ONE loaded object: each must give what a freshly loaded '
+                f'object gives, {want}; {which} gave {got}',
+                replay={'kind': 'hist', 'text': text,
+                        'queries': [list(q) for q in queries],
+                        'expected': want})
+
+    def akhist(self, rec):
+        _, file, steps = rec
+        import asyncssh
+        tf, menu = self.tf, self.menu
+        self.n += 1
+        text = tf.ak_text(menu, file)
+        entries = text.replace(tf.key_text('k1'), '<k1>').replace(
+            tf.key_text('k2'), '<k2>').splitlines()
+        self.ctx.count(('akhist', str(file), str([s[0] for s in steps])),
+                       nontrivial=any(s[1] for s in steps))
+        want, got, qds = [], [], []
+        try:
+            obj = asyncssh.import_authorized_keys(text)
+        except Exception as exc:        # pylint: disable=broad-except
+            obj = None
+            got = f'{type(exc).__name__}: {exc}'
+        for q, r_idx, pred in steps:
+            want.append(None if r_idx == 0 else tf.ak_predicted(pred))
+            p = menu.princ[q[3] - 1]
+            qd = {'key': menu.akkeys[q[0] - 1],
+                  'host': 'a' if q[1] == 1 else 'b', 'addr': f'10.0.0.{q[2]}',
+                  'principals': None if p == 'none' else [tf.S(x) for x in p],
+                  'ca': bool(q[4])}
+            qds.append(qd)
+            if obj is not None:
+                try:
+                    r = obj.validate(tf.keys()[qd['key']][0], qd['host'],
+                                     qd['addr'], qd['principals'], qd['ca'])
+                    got.append(None if r is None else tf.ak_normal(r))
+                except Exception as exc:    # pylint: disable=broad-except
+                    got.append(f'{type(exc).__name__}: {exc}')
+        if got != want:
+            self.ctx.violation(
+                {'module': 'TrustFiles', 'api': 'authorized_keys',
+                 'entries': entries, 'history': qds},
+                f'authorized_keys {entries}, validate() called with {qds} '
+                f'one after the other on ONE loaded object: expected {want} '
+                f'(what a fresh object gives each time), got {got}',
+                replay={'kind': 'akhist', 'text': text, 'queries': qds,
+                        'expected': want})
+
     def dispatch(self, rec):
         getattr(self, rec[0])(rec)
 
@@ -488,6 +591,20 @@ def replay_one(ctx, tf, path, workdir):
                                    [set(x) for x in exp]) and not got[2]
         if exp is None:         # damage sweep file
             good = got[0] == 'ok' and got[1] == (['k1'], [], ['k2'])
+    elif kind == 'hist':
+        obj = asyncssh.import_known_hosts(rp['text'])
+        got = [[[tf.key_id(k) for k in lst]
+                for lst in obj.match(q[0], q[1], q[2])[:3]]
+               for q in rp['queries']]
+        good = got == rp['expected']
+    elif kind == 'akhist':
+        obj = asyncssh.import_authorized_keys(rp['text'])
+        got = []
+        for q in rp['queries']:
+            r = obj.validate(tf.keys()[q['key']][0], q['host'], q['addr'],
+                             q['principals'], q['ca'])
+            got.append(None if r is None else tf.ak_normal(r))
+        good = got == rp['expected']
     elif kind == 'tok':
         got = tf.tok_run(rp['text'])
         exp = rp['expected']
